@@ -32,6 +32,22 @@ def split_iri(iri_string: str) -> tuple[str, str]:
 
 
 T = TypeVar("T")
+
+
+def next_term(terms: Iterator[object]) -> object:
+    """
+    Return the next term of a statement.
+
+    A statement with too few terms is an error of its own: a bare StopIteration
+    would end a surrounding generator (silently, in the compiled build) and the
+    rest of the caller's statements with it.
+    """
+    try:
+        return next(terms)
+    except StopIteration:
+        msg = "statement has too few terms"
+        raise JellyConformanceError(msg) from None
+
 Rows: TypeAlias = Sequence[jelly.RdfStreamRow]
 Statement: TypeAlias = jelly.RdfQuad | jelly.RdfTriple
 HasGraph: TypeAlias = jelly.RdfQuad | jelly.RdfGraphStart
@@ -209,13 +225,13 @@ class TermEncoder:
         terms = iter(terms)
         self.quoted_triple_depth += 1
         try:
-            extra_rows = self.encode_spo(next(terms), Slot.subject, quoted_statement)
+            extra_rows = self.encode_spo(next_term(terms), Slot.subject, quoted_statement)
             rows.extend(extra_rows)
             extra_rows = self.encode_spo(
-                next(terms), Slot.predicate, quoted_statement
+                next_term(terms), Slot.predicate, quoted_statement
             )
             rows.extend(extra_rows)
-            extra_rows = self.encode_spo(next(terms), Slot.object, quoted_statement)
+            extra_rows = self.encode_spo(next_term(terms), Slot.object, quoted_statement)
             rows.extend(extra_rows)
         finally:
             self.quoted_triple_depth -= 1
@@ -292,17 +308,17 @@ def encode_spo(
 
     """
     rows: list[jelly.RdfStreamRow] = []
-    s = next(terms)
+    s = next_term(terms)
     if s is None or repeated_terms[Slot.subject] != s:
         extra_rows = term_encoder.encode_spo(s, Slot.subject, statement)
         rows.extend(extra_rows)
         repeated_terms[Slot.subject] = s
-    p = next(terms)
+    p = next_term(terms)
     if p is None or repeated_terms[Slot.predicate] != p:
         extra_rows = term_encoder.encode_spo(p, Slot.predicate, statement)
         rows.extend(extra_rows)
         repeated_terms[Slot.predicate] = p
-    o = next(terms)
+    o = next_term(terms)
     if o is None or repeated_terms[Slot.object] != o:
         extra_rows = term_encoder.encode_spo(o, Slot.object, statement)
         rows.extend(extra_rows)
@@ -357,7 +373,7 @@ def encode_quad(
     quad = jelly.RdfQuad()
     term_encoder.new_statement()
     rows = encode_spo(terms, term_encoder, repeated_terms, quad)
-    g = next(terms)
+    g = next_term(terms)
     if g is None or repeated_terms[Slot.graph] != g:
         extra_rows = term_encoder.encode_graph(g, quad)
         rows.extend(extra_rows)
